@@ -328,6 +328,25 @@ PROPS['C14'] = {
     'bounded': ['cli_multifile'],
 }
 PROPS['C07']['units'].append('imports')
+PROPS['C19'] = {
+    'units': ['annot'],
+    'title': 'the typeshare attribute macro removes exactly the typeshare attributes and leaves everything else of the item alone (macro kernel)',
+    'technique': 'Verus contracts on annotation/src/lib.rs - the macro `typeshare`, strip_configuration_attribute and its two nested functions, extracted '
+                 'verbatim - over plain-struct stand-ins for the part of syn\'s DeriveInput tree the code walks (attrs / fields / variants + an opaque '
+                 'rest); the `iter_mut()` loops through vstd\'s prophetic IterMut specification; Vec::retain with the source\'s closure as an assumed contract',
+    'level_text': 'For every item the macro is applied to: if it parses as a struct, enum or union, the result is the printed form of a tree that '
+                  'differs from the parsed one exactly by the removal of the attributes whose path is `typeshare` from every variant, every field of '
+                  'every variant (named or unnamed), every struct field and every named union field - other attributes keep their order, the item\'s own attributes, '
+                  'generics, visibility, types and discriminants (the opaque rest of each node) are untouched, and no such attribute is left at any of these '
+                  'positions; anything else (type alias, const, function) is handed back untouched.',
+    'level_note': 'Kernel: the tree transformation. What rustc and serde_derive make of the result (compiles exactly when the un-annotated program does, '
+                  'same serialised form), that quote prints untouched parts equivalently and that syn\'s real types behave like the stand-ins are NOT '
+                  'proved: bounded stand-in twins (an annotated program and its plain twin built against /repo/lib). Assumed: Vec::retain keeps exactly the '
+                  'elements the predicate accepts; the predicate (path prints as `typeshare`) is uninterpreted.',
+    'design_ref': 'DESIGN.md section 10.15',
+    'bounded': ['twins'],
+}
+PROPS['C07']['units'].append('annot')
 PROPS['C03']['bounded'] = ['merge', 'tos']
 PROPS['C06']['bounded'] = ['merge', 'cli_determinism']
 PROPS['C11']['bounded'] = ['topo', 'deps']
@@ -342,9 +361,6 @@ NOT_APPLICABLE = {
     'C10': 'syntactic well-formedness of a whole output file is a statement about the grammar of six target languages; contracts here can state '
            'fragments the property names (a type expression: C05, a member with its optional marker: C04, comment lines: C15) but not that a file '
            'parses - that needs the grammars as specification and a proof over every writer - see DESIGN.md section 6 and section 9',
-    'C19': 'the property quantifies over what rustc accepts and how serde_derive behaves on twin programs; typeshare\'s own share is a 30-line '
-           'syn::DeriveInput walk in a proc-macro crate (syn / quote / proc_macro2: outside Verus, and the Kani compiler crashes on them) - see '
-           'DESIGN.md section 6',
 }
 
 ALL_UNITS = sorted({u for p_ in PROPS.values() for u in p_.get('units', [])})
